@@ -14,6 +14,6 @@ INIT InitE
 NEXT Next
 VIEW View
 ${EMIT}
-INVARIANTS TypeOK FreshOnly AtMostOnce PoolNoDup
+INVARIANTS TypeOK FreshOnly AtMostOnce PoolNoDup ${EXTRA_INV}
 PROPERTIES FailuresLeaveNothing PruneSound
 CHECK_DEADLOCK FALSE
